@@ -52,6 +52,9 @@ def dec3(m):
 def render(rec, chrom="CHR1", contig_len=1000, rid=None, with_header=True):
     n = len(rec["gts"])
     samples = ["S%d" % (i + 1) for i in range(n)]
+    if (len(rec["alts"]) + sum(len(g) for g in rec["gts"]) + len(rec["snvpos"] or [])) % 3 == 0:
+        # sample identifiers are arbitrary strings, including ones that spell a fixed VCF column
+        samples = ["REF", "INFO", "ID", "ALT"][:n]
     fmt = ["GT", "SQ"]
     if rec["dp"]:
         fmt.append("SNVDP")
